@@ -253,6 +253,13 @@ func runDispatcherChildren(r *ev.Run, scratch string) {
 		procs := []int{4, 8, 2, 6}[c%4]
 		specs = append(specs, childSpec{mode: "dispatch-stress", n: c, from: 0, to: rounds, procs: procs, timeout: tmo, tier: r.Tier})
 	}
+	// Rounds with a STUCK consumer (a full channel nobody reads) get processes of their own, outside the
+	// four slots: an implementation may wait at a full channel (3 s timeout in /repo, never reached there),
+	// and such a wait must overlap with the other children instead of adding to the wall time. Few rounds
+	// per process for the same reason (see stuckPlan).
+	for c := 0; c < r.N(4, 8); c++ {
+		specs = append(specs, childSpec{mode: "dispatch-stress", n: stuckChildBase + c, from: 0, to: r.N(2, 12), procs: []int{4, 8, 2, 6}[c%4], timeout: tmo, tier: r.Tier})
+	}
 	// seq children are light: run them together with the first wave of stress children
 	par := 4
 	sem := make(chan struct{}, par)
@@ -263,7 +270,7 @@ func runDispatcherChildren(r *ev.Run, scratch string) {
 		wg.Add(1)
 		go func(i int, sp childSpec) {
 			defer wg.Done()
-			if sp.mode == "dispatch-stress" {
+			if sp.mode == "dispatch-stress" && sp.n < stuckChildBase {
 				sem <- struct{}{}
 				defer func() { <-sem }()
 			}
@@ -273,7 +280,7 @@ func runDispatcherChildren(r *ev.Run, scratch string) {
 	wg.Wait()
 	logf("dispatcher children: %d processes in %.1fs", len(specs), time.Since(t0).Seconds())
 
-	samplesLeft := map[string]int{"dispatch-seq": 1, "dispatch-stress": 2}
+	samplesLeft := map[string]int{"dispatch-seq": 2, "dispatch-stress": 2}
 	for _, oc := range outs {
 		if oc == nil {
 			continue
